@@ -127,6 +127,12 @@ func C02(tier string) int {
 			}
 		}
 		ops2 = append(ops2, SOp{Kind: "att", Ents: []Ent{{Key: k, S: 0, T: 1, Root: 1}}}, SOp{Kind: "att", Ents: []Ent{{Key: k, S: 1, T: 2, Root: 2}}})
+		// A block header submitted to the generic batch endpoint under the proposer domain type, beside an ordinary
+		// generic entry for the other key (in both orders): if that is ever signed it is a proposal like any other.
+		for _, slot := range []uint64{0, 1} {
+			ops2 = append(ops2, SOp{Kind: "msign-prop-first", Ents: []Ent{{Key: k, Slot: slot, Root: 2}, {Key: 1 - k}}},
+				SOp{Kind: "msign-prop-last", Ents: []Ent{{Key: k, Slot: slot, Root: 2}, {Key: 1 - k}}})
+		}
 		// The same proposals asked of a second instance started on the same storage directory.
 		for _, slot := range []uint64{0, 1} {
 			ops2 = append(ops2, SOp{Kind: "twin-prop", Ents: []Ent{{Key: k, Slot: slot, Root: 2}}})
